@@ -245,7 +245,7 @@ def h17_nested(S):
     from repid.data._key import RoutingKey
     import repid.data._parameters as P
 
-    which = S.pick("scenario", 9)
+    which = S.pick("scenario", 10)
     log = []
     S.tag("scenario", which)
 
@@ -276,6 +276,30 @@ def h17_nested(S):
             for n, c in (("one", c1), ("two", c2)):
                 await c.message_broker.queue_declare("default")
                 await c.message_broker.enqueue(RoutingKey(topic="job", queue="default", id_=n), "p", None)
+            log.extend(hears)
+            return
+        elif which == 9:
+            # a connection that was closed and opened again (two `magic(auto_disconnect=True)` blocks, a reconnect after an outage)
+            from repid import InMemoryMessageBroker
+            cycles = S.pick("close_and_reopen_cycles", 3)
+            conn = Connection(InMemoryMessageBroker(), InMemoryBucketBroker())
+            hears = []
+
+            async def before_enqueue(key):
+                hears.append(("before_enqueue", key.id_))
+
+            async def after_store_bucket(id_, result):
+                hears.append(("after_store_bucket", id_))
+
+            conn.middleware.add_subscriber(before_enqueue)
+            conn.middleware.add_subscriber(after_store_bucket)
+            await conn.connect()
+            for _ in range(cycles):
+                await conn.disconnect()
+                await conn.connect()
+            await conn.message_broker.queue_declare("default")
+            await conn.message_broker.enqueue(RoutingKey(topic="job", queue="default", id_="e1"), "p", None)
+            await conn.args_bucket_broker.store_bucket("b1", conn.args_bucket_broker.BUCKET_CLASS(data="x"))
             log.extend(hears)
             return
         elif which == 8:
@@ -408,7 +432,10 @@ def h17_nested(S):
 
     run_async(main, clock=PinnedClock(T0))
     S.cover("nested")
-    if which == 0:
+    if which == 9:
+        S.check("signals-reach-the-subscribers-of-a-reopened-connection", log == [("before_enqueue", "e1"), ("after_store_bucket", "b1")],
+                info=f"after closing and reopening the connection the subscribers heard {log}")
+    elif which == 0:
         S.check("nested-operations-emit-nothing", log == ["before_requeue", "after_requeue"], info=str(log))
     elif which == 4:
         S.check("consumer-side-dead-lettering-is-signalled", [x for x in log if "nack" in x] == ["before_nack", "after_nack"], info=str(log))
